@@ -501,7 +501,7 @@ func c11Check(c C11Case, rec *evid.Rec) error {
 var _ = selector.Matcher{}
 
 var c11Part = evid.Part[C11Case]{
-	Prop: "C11", Name: "histories", Quick: 1500, Thorough: 150000,
+	Prop: "C11", Name: "histories", Quick: 1500, Thorough: 600000,
 	Rule: "history of ≤30 operations over a table of tracked nodes: producers = builders (all implementations and call programs; typed struct / typed-map builders of the generated code in node/gendemo and of bindnode, at type and representation level), decoders (input buffer overwritten afterwards), reader-backed bytes nodes, subset and plain selector matches, visited children of walks, FocusedTransform results, Copy targets, containers embedding a tracked node followed by more siblings, root AssignNode followed by Reset and reuse, Reset and reuse of the producing builder; other actions = full / partial / repeated reads, AsLargeBytes with interleaved readers and seeks, encoding; after EVERY operation every tracked node is read twice and must equal its snapshot; non-trivial = ≥3 operations including a structure-sharing one followed by a potentially mutating one; distinct by history",
 	Gen: func(t *rapid.T) C11Case {
 		var c C11Case
